@@ -178,6 +178,12 @@ func (c *Ctx) errorsNotDropped(prop string) {
 				c.info(key, ins.Pos(), "exception: %s", why)
 				return
 			}
+			// the pipe-feeding pattern wherever it lives: the function encodes into an io.PipeWriter
+			// and closes it - a failed encode ends the pipe early and surfaces as a short upload
+			if fam == "Index).WriteTo" && feedsPipe(ins.Parent(), ci) {
+				c.info(key, ins.Pos(), "exception: pipe-feeding function: a failed encode closes the pipe early and surfaces as a short upload")
+				return
+			}
 			c.bad(key, ins.Pos(), "the error returned by %s is dropped (never tested, returned or stored): a failure of this operation is invisible", name)
 		})
 	}
@@ -239,4 +245,35 @@ func (c *Ctx) exactReads() {
 		})
 	}
 	c.ok("exact-reads", 0, "%d decoding primitive(s) without a direct Read; %d direct Read call(s) elsewhere in the library, byte count used", prim, direct)
+}
+
+// feedsPipe: call writes into an *io.PipeWriter that fn also closes (directly or deferred).
+func feedsPipe(fn *ssa.Function, call ssa.CallInstruction) bool {
+	args := call.Common().Args
+	if len(args) < 2 {
+		return false
+	}
+	isPipe := func(v ssa.Value) bool {
+		for _, l := range leaves(v) {
+			if strings.HasSuffix(l.Type().String(), "io.PipeWriter") {
+				return true
+			}
+			if mi, ok := l.(*ssa.MakeInterface); ok && strings.HasSuffix(mi.X.Type().String(), "io.PipeWriter") {
+				return true
+			}
+		}
+		return false
+	}
+	if !isPipe(args[1]) {
+		return false
+	}
+	closes := false
+	instrs(fn, func(_ *ssa.BasicBlock, _ int, ins ssa.Instruction) {
+		if ci, ok := ins.(ssa.CallInstruction); ok && ins.Parent() == fn {
+			if n := callee(ci); n == "(*io.PipeWriter).Close" || n == "(*io.PipeWriter).CloseWithError" {
+				closes = true
+			}
+		}
+	})
+	return closes
 }
